@@ -104,6 +104,8 @@ THEOREMS = [
     "OllamaVerif.Tie.C19.latest_never_measured",
     "OllamaVerif.Tie.C19.collate_separators",
     "OllamaVerif.Tie.C19.legacy_loop_is_join_repaired",
+    "OllamaVerif.Tie.C19.tree_is_current_variant",
+    "OllamaVerif.C19.F5_repaired_witnesses",
 ]
 # branches of the model (scan / total / finalSystem / stepImg / imgData / execute path / legacyStep / cutNode) that
 # the theorems talk about; counted by the driver per generated case (zz_verif_c19cov_test.go); a run in which one
